@@ -50,8 +50,10 @@ let run (toks : string list) : string =
     let out = ref [] in
     let emit s = out := s :: !out in
     let key_of name = n_of_int (1000 + (Hashtbl.hash name) mod 1000) in
+    let seen_keys : (int * int) list ref = ref [] in
+    let self_id () = (match !d.Config.d_uuid with Some u -> u | None -> []) in
     let controllers () =
-      L.sort compare (L.filter_map (fun ((n, _), priv) -> if priv then None else Some (str n)) !d.Config.d_entities) in
+      L.sort compare (L.filter_map (fun ((n, _), priv) -> if priv then None else Some (if n = self_id () then "SELF" else str n)) !d.Config.d_entities) in
     let paired name = L.mem name (controllers ()) in
     L.iter (fun op ->
         let p = split_on ':' op in
@@ -68,9 +70,11 @@ let run (toks : string list) : string =
                d := d'; running := true; last_version := cfg.Config.c_version;
                let uri = (match Pin.xhm_of_pin (bytes_of_string !pin) (bytes_of_string !sid) (n_of_int (int_of_string cat)) [n_of_int 2] with
                    | Some u -> hx u | None -> hx (bytes_of_string "err")) in
+               let k = int_of_n cfg.Config.c_key in
+               (if not (L.mem_assoc k !seen_keys) then seen_keys := (k, !starts) :: !seen_keys);
                emit (Printf.sprintf "S=id%d,key%d,c%d,sf%d,ci%s,disk1,x%s"
                        (match cfg.Config.c_id with x :: _ -> int_of_n x | [] -> -1)
-                       (int_of_n cfg.Config.c_key) (int_of_n cfg.Config.c_version)
+                       (L.assoc k !seen_keys) (int_of_n cfg.Config.c_version)
                        (if cfg.Config.c_discoverable then 1 else 0) cat uri))
           | ["X"] -> running := false
           | ["T"] ->
@@ -80,6 +84,9 @@ let run (toks : string list) : string =
             if !running then emit (k ^ "=running")
             else if k = "P" then d := Config.pair !d (bytes_of_string name) (key_of name)
             else d := Config.unpair !d (bytes_of_string name)
+          | ["PSELF"] ->
+            if not !running then emit "PSELF=stopped"
+            else (d := Config.pair !d (self_id ()) (key_of "SELF"); emit "PSELF=st2/st4/st6[M2okM6ok]")
           | ["PS"; name] ->
             if not !running then emit "PS=stopped"
             else (d := Config.pair !d (bytes_of_string name) (key_of name); emit "PS=st2/st4/st6[M2okM6ok]")
